@@ -570,6 +570,21 @@ pub fn corpus(thorough: bool) -> Vec<DetCase> {
             }),
         ));
     }
+    // one path with a recursive AND non-recursive registrations, and a child type: whichever is registered
+    // first, the non-recursive ones stay on the parent
+    {
+        let defs = vec![
+            Def::strukt(&["p", "a"], "Child", &[], named(vec![("v", U32)])),
+            Def::strukt(&["p", "a"], "Parent", &[], named(vec![("c", Ty::Named(0, vec![])), ("n", U8)])),
+        ];
+        regs.push((
+            "recursive and plain registrations on one path".into(),
+            RegSrc::Prog(Program {
+                defs,
+                roots: vec![Ty::Named(1, vec![])],
+            }),
+        ));
+    }
     // one path registered under two spellings (`p::a::N` and `::p::a::N`) with different derives
     regs.push((
         "one path, two spellings".into(),
@@ -651,6 +666,13 @@ pub fn corpus(thorough: bool) -> Vec<DetCase> {
             if rn == "recursive root with two instantiations" {
                 s.derives_for = vec![("p::g::W".into(), vec!["::z::Rec".into()], true)];
                 s.attrs_for = vec![("p::g::W".into(), vec!["#[rec]".into()], true)];
+            }
+            if rn == "recursive and plain registrations on one path" {
+                s.derives_for = vec![
+                    ("p::a::Parent".into(), vec!["::z::RecDebug".into()], true),
+                    ("p::a::Parent".into(), vec!["::z::OnlyParent".into()], false),
+                ];
+                s.attrs_for = vec![("p::a::Parent".into(), vec!["#[only_on_parent]".into()], false), ("p::a::Parent".into(), vec!["#[rec]".into()], true)];
             }
             if rn == "one path, two spellings" {
                 s.derives_for = vec![
